@@ -87,17 +87,35 @@ fn evolution_attr(rec: &RecordDecl) -> String {
     let h = refmodel::rng::fnv64_str(&rec.name);
     if parts.len() >= 2 && h % 3 == 0 {
         let cut = 1 + (h / 3) as usize % (parts.len() - 1);
-        format!("#[evolution({})]\n#[evolution({})]\n", parts[..cut].join(", "), parts[cut..].join(", "))
+        format!("#[evolution({})]\n{}#[evolution({})]\n", parts[..cut].join(", "), inert(&format!("{}/between", rec.name)).map(|a| format!("{a}\n")).unwrap_or_default(), parts[cut..].join(", "))
     } else {
         format!("#[evolution({})]\n", parts.join(", "))
     }
 }
 
+/// attributes that mean nothing to the derive macro (doc comments, lints, a disabled cfg_attr): real declarations carry
+/// them before, between and after the helper attributes — chosen by hash, so that nothing else depends on them
+fn inert(key: &str) -> Option<&'static str> {
+    match refmodel::rng::fnv64_str(key) % 9 {
+        0 => Some("/// documented"),
+        1 => Some("#[allow(dead_code)]"),
+        2 => Some("#[cfg_attr(any(), deprecated)]"),
+        3 => Some("#[doc = \"x\"]"),
+        _ => None,
+    }
+}
+
 fn field_lines(rec: &RecordDecl, named: bool, vis: &str) -> String {
     let mut s = String::new();
-    for f in &rec.fields {
+    for (i, f) in rec.fields.iter().enumerate() {
+        if let Some(a) = inert(&format!("{}/{}/{i}/pre", rec.name, f.name)) {
+            let _ = writeln!(s, "    {a}");
+        }
         if let Some(t) = &f.transient_expr {
             let _ = writeln!(s, "    #[transient({t})]");
+        }
+        if let Some(a) = inert(&format!("{}/{}/{i}/post", rec.name, f.name)) {
+            let _ = writeln!(s, "    {a}");
         }
         if named {
             let _ = writeln!(s, "    {vis}{}: {},", f.name, f.ty_src);
@@ -154,7 +172,13 @@ pub fn emit_struct(out: &mut Out, rec: &RecordDecl, tags: &[String], schema_over
         let _ = writeln!(out.items, "decl_{name}!({});", args.join(", "));
     } else {
         let _ = writeln!(out.items, "#[derive(BinaryCodec)]");
+        if let Some(a) = inert(&format!("{name}/item/pre")) {
+            let _ = writeln!(out.items, "{a}");
+        }
         out.items.push_str(&evolution_attr(rec));
+        if let Some(a) = inert(&format!("{name}/item/post")) {
+            let _ = writeln!(out.items, "{a}");
+        }
         if rec.fields.is_empty() {
             let _ = writeln!(out.items, "pub struct {name};");
         } else {
@@ -190,17 +214,32 @@ pub fn emit_struct(out: &mut Out, rec: &RecordDecl, tags: &[String], schema_over
 pub fn emit_enum(out: &mut Out, e: &EnumDecl, tags: &[String], variant_schema_override: &dyn Fn(usize) -> Option<String>) {
     let name = &e.name;
     let _ = writeln!(out.items, "#[derive(BinaryCodec)]");
+    if let Some(a) = inert(&format!("{name}/enum/pre")) {
+        let _ = writeln!(out.items, "{a}");
+    }
     if e.sorted {
         let _ = writeln!(out.items, "#[sorted_constructors]");
     }
+    if let Some(a) = inert(&format!("{name}/enum/post")) {
+        let _ = writeln!(out.items, "{a}");
+    }
     let _ = writeln!(out.items, "pub enum {name} {{");
     for v in &e.variants {
+        if let Some(a) = inert(&format!("{name}/{}/pre", v.record.name)) {
+            let _ = writeln!(out.items, "    {a}");
+        }
         if v.transient {
             let _ = writeln!(out.items, "    #[transient]");
+        }
+        if let Some(a) = inert(&format!("{name}/{}/mid", v.record.name)) {
+            let _ = writeln!(out.items, "    {a}");
         }
         let attr = evolution_attr(&v.record);
         if !attr.is_empty() {
             let _ = write!(out.items, "    {attr}");
+        }
+        if let Some(a) = inert(&format!("{name}/{}/post", v.record.name)) {
+            let _ = writeln!(out.items, "    {a}");
         }
         match v.kind {
             VKind::Unit => {
